@@ -26,8 +26,15 @@ impl HCVScore {
         let contingency = contingency_matrix(&labels_true, &labels_pred);
         let mi: T = mutual_info_score(&contingency);
 
-        let homogeneity = entropy_c.map(|e| mi / e).unwrap_or_else(T::one);
-        let completeness = entropy_k.map(|e| mi / e).unwrap_or_else(T::one);
+        // a labelling with a single class has zero entropy: the score is 1 by definition
+        let homogeneity = entropy_c
+            .filter(|e| *e > T::zero())
+            .map(|e| mi / e)
+            .unwrap_or_else(T::one);
+        let completeness = entropy_k
+            .filter(|e| *e > T::zero())
+            .map(|e| mi / e)
+            .unwrap_or_else(T::one);
 
         let v_measure_score = if homogeneity + completeness == T::zero() {
             T::zero()
